@@ -13,7 +13,7 @@ func (w *World) hostileRecovery(r *Run) string {
 	t := r.T
 	t.Begin("hostile-recovery")
 	defer t.End()
-	kinds := []string{"stale-same-setid", "foreign-set", "flip-in-recovery", "truncate-recovery", "garbage-named-like-volume", "empty-recovery", "flip-in-index", "forged-recovery-block"}
+	kinds := []string{"stale-same-setid", "foreign-set", "flip-in-recovery", "truncate-recovery", "garbage-named-like-volume", "empty-recovery", "flip-in-index", "forged-recovery-block", "conflicting-duplicate"}
 	kind := kinds[t.Draw(len(kinds), "kind")]
 	return w.hostileRecoveryKind(r, kind)
 }
@@ -111,6 +111,38 @@ func (w *World) hostileRecoveryKind(r *Run, kind string) string {
 		w.Disk.Put(p, nb)
 		r.Logf("hostile forged recovery block in %s", filepath.Base(p))
 		r.Probe("forged-recovery-block")
+	case "conflicting-duplicate":
+		// a copy of a recovery file under another name in which one block
+		// is valid by the format's checks but differs from the original:
+		// the same exponent now exists twice with different content, and
+		// which one a reader ends up with depends on the listing order
+		if len(present) == 0 {
+			return "none"
+		}
+		src := present[t.Draw(len(present), "which")]
+		b, _ := w.Disk.Get(src)
+		pk, _ := ref.ParsePackets(b)
+		var rec []ref.Packet
+		for _, x := range pk {
+			if x.Type == ref.TypeRecvSlic {
+				rec = append(rec, x)
+			}
+		}
+		if len(rec) == 0 {
+			return "none"
+		}
+		x := rec[t.Draw(len(rec), "packet")]
+		body := append([]byte(nil), x.Body...)
+		if len(body) > 4 {
+			body[4+t.Draw(len(body)-4, "off")] ^= byte(1 + t.Draw(255, "xor"))
+		}
+		forged := ref.MakePacket(x.SetID, x.Type, body)
+		nb := append(append(append([]byte(nil), b[:x.Offset]...), forged...), b[x.Offset+x.Length:]...)
+		suffix := []string{".a.par2", ".zz.par2", " (2).par2"}[t.Draw(3, "suffix")]
+		dst := src[:len(src)-5] + suffix
+		w.Disk.Put(dst, nb)
+		r.Logf("hostile conflicting duplicate %s of %s", filepath.Base(dst), filepath.Base(src))
+		r.Probe("conflicting-duplicate-block")
 	case "foreign-set":
 		other := []ref.Protected{{Name: "foreign.bin", Data: expandContent(ckRandom, t.Draw64(0, "fseed"), 3*w.S+1, w.S)}}
 		set := ref.BuildSet(other, w.S, []int{0, 1}, "foreign")
